@@ -18,7 +18,7 @@ from lib import common, e2echeck, e2egen  # noqa: E402
 
 
 def main(run: common.Run):
-    n = 6 if run.tier == "quick" else 100
+    n = 6 if run.tier == "quick" else 60
     run.bounds = {"contracts": n, "functions_per_contract": 8, "guard_atoms": "1..3", "bytes_lengths": e2egen.BYTES_LENS,
                   "array_lengths": e2egen.ARRAY_LENS, "configs": [c["name"] for c in e2echeck.CONFIGS],
                   "solver_cap_s": 20 if run.tier == "quick" else 90}
